@@ -557,6 +557,9 @@ class Interp:
             return env[node.id]
         modname = env.get("__module__")
         func = env.get("__func__")
+        if func is not None and hasattr(func, "locals") and node.id in func.locals:
+            # a local that no statement on this path has bound
+            raise RaiseEx("UnboundLocalError", "local variable '%s' referenced before assignment" % node.id, node)
         # enclosing function's variables are not modelled: builders do not use closures
         mod = self.proj.modules.get(modname)
         if mod is not None:
